@@ -79,34 +79,39 @@ theorem partition_weight (w : Char × List Mod → Rat) (a : Annotation) (ends :
   rw [pieces_weight w a 0 ends hinc, hlast]
   simp [← residues_length a]
 
-/-- exact accounting on the code as it is (no interval modifications): the abstract masses of the `k` non-empty consecutive
-pieces of a partition sum to the mass of the whole plus `k-1` times (one water + everything `slice` copies into every
-piece: labile mods, unknown-position mods, terminal static rules) -/
+/-- exact accounting on the code as it is: if no cut falls strictly inside an interval (`CutsOK`, the property's domain),
+the abstract masses of the `k` non-empty consecutive pieces of a partition sum to the mass of the whole plus `k-1` times
+(one water + everything `slice` copies into every piece: labile mods, unknown-position mods, terminal static rules);
+every interval modification is counted exactly once -/
 theorem mass_partition_exact (w : Char × List Mod → Rat) (m : Mod → Rat) (t : Option (List Mod) → Rat) (h : Rat)
     (a : Annotation) (ends : List Nat) (hne : ends ≠ [])
-    (hinc : Increasing 0 ends a.seq.length) (hlast : lastOf 0 ends = a.seq.length) (hiv : a.intervals = none) :
+    (hinc : Increasing 0 ends a.seq.length) (hlast : lastOf 0 ends = a.seq.length)
+    (hc : CutsOK a.intervals a.seq.length (0 :: ends)) :
     ((piecesFrom a 0 ends).map (amass w m t h)).sum =
       amass w m t h a + times (ends.length - 1) (h + inherited m t a) := by
-  rw [pieces_amass w m t h a 0 ends hinc hiv, hlast]
+  rw [pieces_amass_iv w m t h a 0 ends hinc hc, hlast]
   obtain ⟨e, rest, rfl⟩ := List.exists_cons_of_ne_nil hne
   simp only [ne_eq, reduceCtorEq, not_false_eq_true, and_self, if_true, List.length_cons, Nat.add_sub_cancel, times,
     Nat.sub_zero]
-  have : ((residues a).drop 0).take a.seq.length = residues a := by simp [← residues_length a]
-  rw [this]
+  have h1 : ((residues a).drop 0).take a.seq.length = residues a := by simp [← residues_length a]
+  have h2 : ivSumIn m a.intervals ((0 : Nat) : Int) (a.seq.length : Int) = intervalSum m a.intervals :=
+    ivSumIn_all m a.intervals a.seq.length (fun L hL iv hiv => ⟨(hc L hL iv hiv).1, (hc L hL iv hiv).2.2.1⟩)
+  rw [h1, h2]
   unfold amass inherited
-  simp only [hiv, intervalSum]
   grind
 
 /-- FULL STATEMENT (false on the current code, see below):
-    `Σ mass(piece) = mass(protein) + (k-1)·water` for every modified protein (labile mods are in the quantifier).
+    `Σ mass(piece) = mass(protein) + (k-1)·water` for every modified protein whose intervals do not straddle a cut
+    (labile mods are in the quantifier).
 PARTIAL: it holds exactly when nothing is inherited by every piece — no labile mods, no unknown-position mods, no static
-rule with a terminal target — and (for this proof) no interval mods. -/
+rule with a terminal target. -/
 theorem mass_conservation_partial (w : Char × List Mod → Rat) (m : Mod → Rat) (t : Option (List Mod) → Rat) (h : Rat)
     (a : Annotation) (ends : List Nat) (hne : ends ≠ [])
-    (hinc : Increasing 0 ends a.seq.length) (hlast : lastOf 0 ends = a.seq.length) (hiv : a.intervals = none)
+    (hinc : Increasing 0 ends a.seq.length) (hlast : lastOf 0 ends = a.seq.length)
+    (hc : CutsOK a.intervals a.seq.length (0 :: ends))
     (hlab : a.labile = none) (hunk : a.unknown = none) (hst : t a.static = 0) :
     ((piecesFrom a 0 ends).map (amass w m t h)).sum = amass w m t h a + times (ends.length - 1) h := by
-  rw [mass_partition_exact w m t h a ends hne hinc hlast hiv]
+  rw [mass_partition_exact w m t h a ends hne hinc hlast hc]
   have : inherited m t a = 0 := by
     unfold inherited; rw [hlab, hunk, hst]; simp [modSum]; grind
   rw [this, times_zero_add]
@@ -132,10 +137,18 @@ def demo : Annotation :=
   { seq := ['P', 'E', 'P', 'K', 'T', 'I', 'D', 'E'],
     nterm := some [⟨.str ['A', 'c'], 1⟩], cterm := some [⟨.str ['A', 'm'], 1⟩],
     static := some [⟨.str ['[', 'X', ']', '@', 'C'], 1⟩],
-    internal := some [(0, [⟨.str ['P', 'h'], 1⟩]), (5, [⟨.int 16, 2⟩])] }
+    internal := some [(0, [⟨.str ['P', 'h'], 1⟩]), (5, [⟨.int 16, 2⟩])],
+    intervals := some [⟨1, 4, false, some [⟨.int 10, 1⟩]⟩, ⟨4, 6, true, none⟩] }
 
-example : Increasing 0 [4, 8] demo.seq.length ∧ lastOf 0 [4, 8] = demo.seq.length ∧ demo.intervals = none ∧
+example : Increasing 0 [4, 8] demo.seq.length ∧ lastOf 0 [4, 8] = demo.seq.length ∧
     demo.labile = none ∧ demo.unknown = none := by simp [Increasing, lastOf, demo]
+example : CutsOK demo.intervals demo.seq.length [0, 4, 8] := by
+  intro L hL
+  have : L = [⟨1, 4, false, some [⟨.int 10, 1⟩]⟩, ⟨4, 6, true, none⟩] := by simp [demo] at hL; exact hL.symm
+  subst this
+  decide
+example : (piecesFrom demo 0 [4, 8]).map (·.intervals) =
+    [some [⟨1, 4, false, some [⟨.int 10, 1⟩]⟩], some [⟨0, 2, true, none⟩]] := by decide
 example : (piecesFrom demo 0 [4, 8]).map residues =
     [[('P', [⟨.str ['P', 'h'], 1⟩]), ('E', []), ('P', []), ('K', [])],
      [('T', []), ('I', [⟨.int 16, 2⟩]), ('D', []), ('E', [])]] := by decide
